@@ -461,6 +461,30 @@ impl<'a> Model<'a> {
                 }
             }
         }
+        // Requests with identical content are interchangeable on the wire: a packet first credited
+        // to an earlier, cancelled request (which may never have been enqueued) belongs to this
+        // accepted one if nothing else on the wire can.
+        if let Some(r) = rec.request {
+            if matches!(res, OpRes::Handle(_)) && !self.req_matched[r] {
+                let reqs = &self.v.trace.requests;
+                let donor = (0..reqs.len()).find(|&q| {
+                    q != r
+                        && self.req_matched[q]
+                        && reqs[q].op < reqs[r].op
+                        && reqs[q].op >= self.epoch_first_op
+                        && reqs[q].packet == reqs[r].packet
+                        && matches!(self.v.trace.ops[reqs[q].op].res, OpRes::Cancelled { .. } | OpRes::Err(ErrKind::Transport))
+                        && self.flights.iter().any(|f| f.req == Some(q) && f.epoch == self.epoch)
+                });
+                if let Some(q) = donor {
+                    if let Some(f) = self.flights.iter_mut().find(|f| f.req == Some(q)) {
+                        f.req = Some(r);
+                    }
+                    self.req_matched[q] = false;
+                    self.req_matched[r] = true;
+                }
+            }
+        }
         // an accepted request must have been put on the wire by the time the operation returns
         if let Some(r) = rec.request {
             // (an identifier-bearing request may be queued behind a retransmission that waits for
